@@ -259,7 +259,8 @@ def run_property(prop, tier, seed, strict=False, nproc=None):
     known, fixed = load_known(prop)
     n_viol = 0
     exit_code = 0
-    os.makedirs(os.path.join(VERIF, "replays"), exist_ok=True)
+    REPLAYS = os.environ.get("VF_REPLAY_DIR") or os.path.join(VERIF, "replays")
+    os.makedirs(REPLAYS, exist_ok=True)
     known_hit = set()
     for key in sorted(violations):
         v = violations[key]
@@ -284,7 +285,7 @@ def run_property(prop, tier, seed, strict=False, nproc=None):
             continue
         n_viol += 1
         h = hashlib.sha256(key.encode()).hexdigest()[:10]
-        path = os.path.join(VERIF, "replays", f"{prop}-{h}.json")
+        path = os.path.join(REPLAYS, f"{prop}-{h}.json")
         with open(path, "w") as f:
             json.dump({"property": prop, "key": key, "count": v["count"], "kind": first["kind"],
                        "case": first["case"], "curve": first.get("curve"), "desc": first["desc"],
@@ -329,8 +330,9 @@ def run_property(prop, tier, seed, strict=False, nproc=None):
         "wall_s": round(wall, 2),
         "violations": n_viol,
     }
-    os.makedirs(os.path.join(VERIF, "evidence"), exist_ok=True)
-    evpath = os.path.join(VERIF, "evidence", f"{prop}.json")
+    evdir = os.environ.get("VF_EVIDENCE_DIR") or os.path.join(VERIF, "evidence")   # override only used by tools/seed_mutant.py
+    os.makedirs(evdir, exist_ok=True)
+    evpath = os.path.join(evdir, f"{prop}.json")
     with open(evpath + ".tmp", "w") as f:
         json.dump(ev, f, indent=1, default=str)
     os.replace(evpath + ".tmp", evpath)
